@@ -35,7 +35,9 @@ def build(S, tier, seed):
 
 
 def _battery(S, r, o):
-    return scenarios.put_kill_battery(S.interp.repo)
+    return scenarios.merge_batteries(
+        scenarios.put_kill_battery(S.interp.repo),
+        scenarios.put_xdev_battery(S.interp.repo, 'kill'))
 
 
 REPLAYERS = {'': _battery}
